@@ -100,6 +100,12 @@ func runStore(c storeCase) storeObs {
 				}
 			case "plain":
 				st.Obs.Res, st.Obs.Intact = expandRes(env, ast.Word{&ast.ParamExp{Braces: len(op.N) > 1, Name: &ast.Lit{Value: op.N}}})
+			case "p:=":
+				st.Obs.Res, st.Obs.Intact = expandRes(env, ast.Word{&ast.Lit{Value: "p"}, &ast.ParamExp{Braces: true, Name: &ast.Lit{Value: op.N}, Op: ":=",
+					Word: ast.Word{&ast.Lit{Value: op.V}}}})
+			case ":-s", "-s":
+				st.Obs.Res, st.Obs.Intact = expandRes(env, ast.Word{&ast.ParamExp{Braces: true, Name: &ast.Lit{Value: op.N}, Op: op.Op[:len(op.Op)-1],
+					Word: ast.Word{&ast.ParamExp{Braces: true, Name: &ast.Lit{Value: "_y"}, Op: ":=", Word: ast.Word{&ast.Lit{Value: "s"}}}}}})
 			case ":=", "=", ":?", "?", "%", "%%", "#", "##":
 				word := ast.Word{&ast.Lit{Value: op.V}}
 				if op.V == "<fail>" {
